@@ -559,6 +559,19 @@ Definition op_clusters (o : op) : list text :=
 Definition table_covers (tab : otable) (o : op) : bool :=
   forallb (fun g => match olookup tab g with Some _ => true | None => false end) (op_clusters o).
 
+(* the characters (clusters after tab expansion) a text helper iterates over, in order *)
+Definition op_chars (o : op) : list character :=
+  match o with
+  | OPrint segs | OPrintTruncate _ segs | OPrintln _ segs => map fst (items_of segs)
+  | OWrap lsegs => flat_map (fun ls => characters (fst ls)) lsegs
+  | _ => []
+  end.
+
+(* the hypothesis on the width oracles: under the measuring method in force (the segmenter's
+   widths, or [measure] when re-measuring) no cluster of the text has a negative width *)
+Definition op_widths_ok (measure : text -> Z) (remeasure : bool) (o : op) : bool :=
+  forallb (fun ch => 0 <=? char_width measure remeasure ch) (op_chars o).
+
 (* all cells of the screen that differ from [bg], row-major, with their coordinates *)
 Definition row_diff (bg : cell) (y : Z) (line : list cell) : list (Z * Z * cell) :=
   flat_map (fun xc => if cell_eqb (snd xc) bg then [] else [(fst xc, y, snd xc)])
@@ -727,8 +740,17 @@ Definition case_more_holds (c : case) : bool :=
 
 Definition case_holds (c : case) : bool := case_core_holds c && case_more_holds c.
 
+(* the hypotheses of the soundness theorems, decided on the case: a screen size that is no
+   negative number and oracle widths that are not negative.  A case outside them counts as a
+   mismatch (as a case whose oracle table does not cover its text does), so that "no
+   mismatch" implies "no violation" (proofs/WindowMoreProofs.v) without side conditions. *)
+Definition case_widths_ok (c : case) : bool :=
+  op_widths_ok (tab_measure (c_tab c)) (c_remeasure c) (c_op c).
+Definition case_inputs_ok (c : case) : bool :=
+  (0 <=? c_cols c) && (0 <=? c_rows c) && case_widths_ok c.
+
 Definition c11_draw_mismatches (cases : list case) : list Z :=
-  bad_indices (fun c => negb (case_agrees c)) cases.
+  bad_indices (fun c => negb (case_agrees c && case_inputs_ok c)) cases.
 Definition c11_draw_violations (cases : list case) : list Z :=
   bad_indices (fun c => negb (case_holds c)) cases.
 
@@ -860,7 +882,12 @@ Definition scase_more_holds (c : scase) : bool :=
   seq_more_from (q_bg c) (q_cols c) (q_rows c) (q_remeasure c) (q_tab c) [] (q_steps c).
 Definition scase_holds (c : scase) : bool := scase_core_holds c && scase_more_holds c.
 
+Definition scase_widths_ok (c : scase) : bool :=
+  forallb (fun st : sstep => op_widths_ok (tab_measure (q_tab c)) (q_remeasure c) (snd (fst st))) (q_steps c).
+Definition scase_inputs_ok (c : scase) : bool :=
+  (0 <=? q_cols c) && (0 <=? q_rows c) && scase_widths_ok c.
+
 Definition c11_seq_mismatches (cases : list scase) : list Z :=
-  bad_indices (fun c => negb (scase_agrees c)) cases.
+  bad_indices (fun c => negb (scase_agrees c && scase_inputs_ok c)) cases.
 Definition c11_seq_violations (cases : list scase) : list Z :=
   bad_indices (fun c => negb (scase_holds c)) cases.
